@@ -14,12 +14,19 @@ use std::sync::atomic::{AtomicUsize, Ordering};
 use std::sync::mpsc;
 use std::time::{Duration, Instant};
 
+/// results shipped by children (`R` lines) of the current run_isolated call
+pub static RESULTS: std::sync::Mutex<Vec<(usize, Value)>> = std::sync::Mutex::new(Vec::new());
+
 pub trait CaseSet: Sync {
     fn len(&self) -> usize;
     /// runs case idx against the library; returns violations (what, replay json)
     fn run(&self, idx: usize, acc: &mut Acc) -> Vec<(String, Value)>;
     /// description of the case for replay files written by the supervisor
     fn describe(&self, idx: usize) -> Value;
+    /// optional result data of a case, shipped to the supervisor (`R <idx> <json>`)
+    fn result(&self, _idx: usize) -> Option<Value> {
+        None
+    }
     /// CPU-seconds one case may use before it counts as "did not terminate"
     fn cpu_budget_s(&self, _idx: usize) -> f64 {
         30.0
@@ -73,6 +80,10 @@ pub fn child_loop(set: &dyn CaseSet, from: usize, to: usize) -> i32 {
             let _ = o.flush();
         }
         let vs = set.run(idx, &mut acc);
+        if let Some(r) = set.result(idx) {
+            let mut o = out.lock();
+            let _ = writeln!(o, "R {} {}", idx, serde_json::to_string(&r).unwrap_or_else(|_| "null".into()));
+        }
         let payload: Vec<Value> = vs.into_iter().map(|(w, r)| json!({"what": w, "replay": r})).collect();
         let mut o = out.lock();
         let _ = writeln!(o, "E {} {}", idx, serde_json::to_string(&payload).unwrap_or_else(|_| "[]".into()));
@@ -100,6 +111,8 @@ pub struct Isolation {
     pub stack_bytes: Option<u64>,
     pub mem_bytes: Option<u64>,
     pub env: Vec<(String, String)>,
+    /// cases per child process (None = automatic); Some(1) = a fresh process for every case
+    pub chunk: Option<usize>,
 }
 
 #[derive(Debug)]
@@ -119,7 +132,7 @@ pub fn run_isolated(ctx: &Ctx, set: &dyn CaseSet, iso: &Isolation, shards: usize
     // spending the CPU budget of every remaining case
     let deaths = AtomicUsize::new(0);
     let max_deaths = 4;
-    let chunk = (n / (shards * 4).max(1)).clamp(1, 20_000);
+    let chunk = iso.chunk.unwrap_or_else(|| (n / (shards * 4).max(1)).clamp(1, 20_000));
     let accs: Vec<Acc> = std::thread::scope(|s| {
         let hs: Vec<_> = (0..shards.max(1))
             .map(|_| {
@@ -236,6 +249,13 @@ fn supervise_once(ctx: &Ctx, set: &dyn CaseSet, iso: &Isolation, from: usize, to
                         }
                     }
                     open = None;
+                } else if let Some(rest) = line.strip_prefix("R ") {
+                    let mut it = rest.splitn(2, ' ');
+                    if let (Some(i), Some(p)) = (it.next(), it.next()) {
+                        if let (Ok(i), Ok(v)) = (i.parse::<usize>(), serde_json::from_str::<Value>(p)) {
+                            RESULTS.lock().unwrap().push((i, v));
+                        }
+                    }
                 } else if let Some(rest) = line.strip_prefix("S ") {
                     if let Ok(v) = serde_json::from_str::<Value>(rest) {
                         acc = acc_from_json(&v);
